@@ -54,7 +54,9 @@ class Recorder:
                 r['weird'] = 'suffix is a str while prefix is not'
             r['pfx'] = [str(x) for x in pfx] if pfx else None
             r['sfx'] = [str(x) for x in sfx] if sfx and not isinstance(sfx, str) else None
-            r['tree'], ids = util.ser_tree(ast_)
+            if any(isinstance(n, ast.Compare) and any(isinstance(c, ast.stmt) for c in util.soc(n)) for n in ast.walk(ast_)):
+                r['weird'] = 'Compare with statement placeholders as operands (temporary state of the _all slice handler)'
+            r['tree'], ids = ser_tree_pruned(ast_, ())
             sub_ids = set(id(n) for n in ast.walk(ast_))
             if put_loc:
                 r['put_loc'] = list(put_loc)
@@ -74,7 +76,7 @@ class Recorder:
             lns_calls, rec._lns = rec._lns, None
             fst_ = ret[0]
             r['lns_calls'] = lns_calls
-            r['out'] = {'lines': [str(l) for l in fst_._lines], 'pos': util.positions(ast_),
+            r['out'] = {'lines': [str(l) for l in fst_._lines], 'pos': positions_pruned(ast_, ()),
                         'src_lines': [str(l) for l in root._lines]}
             if put_loc:
                 r['out']['src_pos'] = positions_pruned(root.a, sub_ids)
@@ -106,6 +108,17 @@ def doc_str_lns(a):
     return out
 
 
+NOPOS = (ast.operator, ast.cmpop, ast.boolop, ast.unaryop, ast.expr_context)
+
+
+def _pos(n):
+    """position of an AST node; operator / context nodes never carry one in an FST tree (temporary attributes a slice
+    handler may have put on them are dropped when the FST is made)"""
+    if isinstance(n, NOPOS) or getattr(n, 'end_col_offset', None) is None:
+        return None
+    return [n.lineno, n.col_offset, n.end_lineno, n.end_col_offset]
+
+
 def ser_tree_pruned(a, skip_ids):
     counter = [0]
     ids = {}
@@ -114,8 +127,7 @@ def ser_tree_pruned(a, skip_ids):
         i = counter[0]
         counter[0] += 1
         ids[id(n)] = i
-        pos = ([n.lineno, n.col_offset, n.end_lineno, n.end_col_offset]
-               if getattr(n, 'end_col_offset', None) is not None else None)
+        pos = _pos(n)
         decos = getattr(n, 'decorator_list', None)
         deco = decos[0].lineno if decos and id(decos[0]) not in skip_ids else None
         return [i, pos, deco, [go(c) for c in util.soc(n) if id(c) not in skip_ids]]
@@ -128,10 +140,7 @@ def positions_pruned(a, skip_ids):
 
     def go(n):
         i = len(out)
-        if getattr(n, 'end_col_offset', None) is not None:
-            out.append([i, [n.lineno, n.col_offset, n.end_lineno, n.end_col_offset]])
-        else:
-            out.append([i, None])
+        out.append([i, _pos(n)])
         for c in util.soc(n):
             if id(c) not in skip_ids:
                 go(c)
